@@ -179,4 +179,23 @@ def orderRun (t : GfaFile) (order : List String) (lm : Bool) : Except String (Li
   let g := readGraph t lm
   runOrder (fun c => decompose (Graph.nbFun g) (compOfName t lm c) (soOf t) (snOf t)) order
 
+/-- `node.tags["BO"] = ("i", bo); node.tags["NO"] = ("i", no)`: dict assignment — a stale tag is replaced in place, a new one
+    goes to the end -/
+def tagNode (n : Node) (bo no : Int) : Node :=
+  { n with tags := tagSet (tagSet n.tags ⟨"BO", "i", toString bo⟩) ⟨"NO", "i", toString no⟩ }
+
+def tagNodes (g : Graph) (tags : List (V × Int × Int)) : Graph :=
+  { g with nodes := g.nodes.map (fun n => match tags.find? (·.1 == n.id) with
+      | some x => tagNode n x.2.1 x.2.2
+      | none => n) }
+
+/-- the per-chromosome file: `write_gfa(set_of_nodes = component, order_bo = True)` once the tags are set -/
+def orderFile (g : Graph) (w : Written) : GfaFile := writeGfa (tagNodes g w.tags) (sortBoNo w.tags)
+
+/-- `run_order_gfa --by-chrom`: the files it writes, in request order -/
+def orderFiles (t : GfaFile) (order : List String) (lm : Bool) : Except String (List (String × GfaFile)) :=
+  match orderRun t order lm with
+  | .ok (ws, _) => .ok (ws.map (fun w => (w.name, orderFile (readGraph t lm) w)))
+  | .error e => .error e
+
 end Gaftools.Order
